@@ -121,7 +121,9 @@ func opWFault(p []string) string {
 }
 
 // rfault <fmt> <hex> <k> <stop>: the reader fails with a distinguished error after k bytes
-func opRFault(p []string) string {
+func opRFault(p []string) string { return opRFaultE(p, nil) }
+
+func opRFaultE(p []string, ferr error) string {
 	data, err := parseHexOrDash(p[1])
 	if err != nil {
 		return "bad-op"
@@ -136,6 +138,7 @@ func opRFault(p []string) string {
 	sr := newSched(data, "-", "0")
 	sr.faultAt = k
 	sr.faultStop = p[3] == "1"
+	sr.faultErr = ferr
 	toks, class, _ := runDecoder(mk(sr), 2*len(data)+8)
 	// fault-free reference: how long is the item?
 	ref := newSched(data, "-", "0")
@@ -151,6 +154,7 @@ func opRFault(p []string) string {
 			sr2 := newSched(data, "-", "0")
 			sr2.faultAt = k
 			sr2.faultStop = p[3] == "1"
+			sr2.faultErr = ferr
 			var do refmt.DecodeOptions = cbor.DecodeOptions{}
 			if p[0] == "json" {
 				do = json.DecodeOptions{}
